@@ -61,6 +61,35 @@ TOL_SECTOR = 1e-9
 TOL_LABEL = 1e-9
 
 
+class _RunAway(BaseException):
+    pass
+
+
+class _Watchdog:
+    def __init__(self, seconds):
+        self.seconds = seconds
+
+    def _handler(self, signum, frame):
+        raise _RunAway()
+
+    def __enter__(self):
+        import signal
+        try:
+            self.old = signal.signal(signal.SIGALRM, self._handler)
+            signal.setitimer(signal.ITIMER_REAL, self.seconds)
+            self.armed = True
+        except ValueError:
+            self.armed = False
+        return self
+
+    def __exit__(self, *a):
+        import signal
+        if self.armed:
+            signal.setitimer(signal.ITIMER_REAL, 0)
+            signal.signal(signal.SIGALRM, self.old)
+        return False
+
+
 def _cfg(t, method, tight=True, mmax=200, no_growth=False):
     if tight:
         t.evolve_config = EvolveConfig(method, ivp_rtol=1e-7, ivp_atol=1e-9, force_ovlp=False)
@@ -300,7 +329,13 @@ def _evolve_checked(cx, fam, spec, ttno, h, lab, q, t, method, tau, normalize, t
     c0 = complex(t.coeff)
     rep = lambda **kw: cx.replay(fam, spec, state0, _hist_json(hist), dict(failing_step=len(hist) - 1, **kw))
     try:
-        new = t.evolve(ttno, tau, normalize=normalize)
+        with _Watchdog(240 if cx.quick else 400):
+            new = t.evolve(ttno, tau, normalize=normalize)
+    except _RunAway:
+        # safety net: an integration that runs away (stiff mean-field equations with an adaptive ODE solver) is interrupted and
+        # the case abandoned without a judgement; counted in the evidence
+        run.count(f"abandoned:run-away-call:{key}")
+        return None
     except Exception as e:  # the property promises a result for every input generated here
         sig = _classify(spec, fam, method, key, e, h, psi0)
         cx.crashed.add(sig)
